@@ -63,7 +63,9 @@ def _frame(d, p, l, branch_col=None, index=None):
     return pd.DataFrame(data, index=index)
 
 
-def _build(d, p, l, material=None, via="lists", index=None, branch_override=None):
+def _build(d, p, l, material=None, via="lists", index=None, branch_override=None, extra=None):
+    if extra is not None:
+        d = dict(d, extra=extra)
     material = material if material is not None else K.build_material(d["material"])
     kw = _kwargs(d, material)
     branch = d.get("branch", "guess") if branch_override is None else branch_override
@@ -121,7 +123,11 @@ def check_same(desc, ctx):
     elif route == "frame_float_labels":
         b = _build(d, p, l, via="frame", index=[i + 0.5 for i in range(n)])
     elif route == "int_literals":
-        b = _build(d, [int(v) for v in p], [int(v) for v in l])
+        # numeric supplementary columns as well: integral values as floats in a, as python ints in b
+        exa = {k: ([float(round(x)) for x in v] if all(isinstance(x, float) for x in v) else v) for k, v in (d.get("extra") or {}).items()}
+        exb = {k: ([int(round(x)) for x in v] if all(isinstance(x, float) for x in v) else v) for k, v in (d.get("extra") or {}).items()}
+        a = _build(d, p, l, extra=exa or None)
+        b = _build(d, [int(v) for v in p], [int(v) for v in l], extra=exb or None)
     elif route == "material_dict":
         b = _build(d, p, l, material=dict(d["material"]))
     elif route == "from_isotherm":
@@ -138,7 +144,10 @@ def check_same(desc, ctx):
         # keep the branch guess unaffected: explicit branches
         bt = a.data_raw["branch"].tolist()
         a = _build(d, p, l, branch_override=bt)
-        b = _build(d, [x + e for x, e in zip(p, dp)], [x + e for x, e in zip(l, dl)], branch_override=bt)
+        # supplementary numeric columns are data columns too (same 8-decimal threshold)
+        ex = {k: ([x + float(e) for x, e in zip(v, rng.uniform(-4e-9, 4e-9, n))] if all(isinstance(x, float) for x in v) else v)
+              for k, v in (d.get("extra") or {}).items()} or None
+        b = _build(d, [x + e for x, e in zip(p, dp)], [x + e for x, e in zip(l, dl)], branch_override=bt, extra=ex)
     elif route == "negative_zero":
         bt = a.data_raw["branch"].tolist()
         i = desc["k"] % n
